@@ -247,7 +247,8 @@ def check_C10(ctx):
     # the budget is what bounds the search in time: real runs of the unguarded binary with budgets 0, 1 and small ones
     # (a budget of exactly 0 is a legitimate outcome of the clamp; only `go infinite` / depth-limited searches are unbounded)
     for form, budget in [('go wtime 1500 btime 1500 winc 100 binc 100', 0), ('go wtime 1 btime 1', 0), ('go movetime 0', 0),
-                         ('go wtime 2 btime 2', 0), ('go movetime 150', 150), ('go wtime 4000 btime 4000 movestogo 10', 300)]:
+                         ('go wtime 2 btime 2', 0), ('go movetime 150', 150), ('go wtime 4000 btime 4000 movestogo 10', 300),
+                         ('go movetime 1100', 1100), ('go wtime 40000 btime 40000', 1234)]:
         t0 = time.time()
         out, rc = timed_go(['position startpos moves e2e4 e7e5', form], budget / 1000.0 + 2.0)
         ctx.count('realtime-budget-runs'); ctx.evaluations += 1
@@ -1386,6 +1387,12 @@ def check_C03(ctx):
                 judge('fen ' + f2, f2, inf2[0], opts, so)
     # the real binary, real time: all go forms
     blackbox_go_forms(ctx, roots[: (6 if ctx.quick else 60)])
+    # budgets of a second and more are enforced too (the answer comes when the budget is used up, not at the next input line)
+    for form, budget in [('go movetime 1100', 1100), ('go wtime 40000 btime 40000', 1234)] + ([] if ctx.quick else [('go movetime 2500', 2500), ('go wtime 100000 btime 100000 winc 1000 binc 1000', 4234)]):
+        out, dt = timed_go(['position startpos moves d2d4 g8f6', form], budget / 1000.0 + 2.0)
+        ctx.count('realtime-long-budget-runs'); ctx.evaluations += 1
+        if out is None:
+            ctx.oracle_fail('go-not-answered-when-its-budget-is-used-up', {'script': ['position startpos moves d2d4 g8f6', form]}, {'budget_ms': budget})
     ctx.sample({'input': f'search {pos_args(*roots[0][:2])} ; depth=3 pollmask=31 stop=2', 'engine': run_search(ctx, pos_args(*roots[0][:2]), 'depth=3 pollmask=31 stop=2', model=False).lines[-9:]})
 
 
@@ -2083,9 +2090,33 @@ def strip_time(lines):
     return [re.sub(r' time \d+', ' time 0', l) for l in lines if l.strip()]
 
 
+def newgame_sessions(ctx):
+    """`ucinewgame` / `cleartt` in states the usual scripts rarely reach: before any `position` command was ever sent,
+    twice in a row, right after a stopped search; the search that follows must print what a fresh process prints"""
+    scripts = [(['go depth 4', 'ucinewgame'], ['go depth 4']), (['go depth 3', 'cleartt'], ['go depth 5']),
+               (['isready', 'go depth 5', 'UciNewGame'], ['go depth 4']), (['go depth 4', 'ucinewgame', 'ucinewgame'], ['go depth 3']),
+               (['go movetime 0', 'go depth 4', 'ucinewgame'], ['go depth 4']),
+               (['position startpos moves e2e4', 'go depth 4', 'ucinewgame'], ['position startpos moves e2e4', 'go depth 4']),
+               (['go depth 4', 'position startpos moves e2e4', 'ucinewgame'], ['position startpos moves e2e4', 'go depth 4'])]
+    for pre, tail in scripts:
+        lines = pre + tail + ['quit']
+        out, rc = bb_session(lines, model=ctx.model)
+        fresh, rc2 = bb_session(tail + ['quit'], model=ctx.model)
+        keep = lambda ls: [re.sub(r' time \d+', ' time 0', l) for l in ls if l.startswith('info ') or l.startswith('bestmove')]
+        f = keep(fresh); g = keep(out)[-len(f):] if f else []
+        m = ctx.model.ask('session ' + ' | '.join(lines))
+        ctx.count('newgame-sessions'); ctx.evaluations += 1
+        ctx.corr_cmds['session'] = ctx.corr_cmds.get('session', 0) + 1
+        if [re.sub(r' time \d+', ' time 0', l) for l in out] != m[:-1]:
+            ctx.disagreements.append({'command': 'session ' + ' | '.join(lines), 'first_diff_line': None, 'engine': out[-2:], 'model': m[-3:-1]})
+        if not f or g != f or rc != 0:
+            ctx.oracle_fail('search-after-ucinewgame-differs-from-fresh-process', {'script': lines, 'fresh_script': tail}, {'session': g[-2:], 'fresh': f[-2:], 'rc': rc})
+
+
 def check_C18(ctx):
     rng = ctx.gen.rng
     session_corr(ctx, 12 if ctx.quick else 200)
+    newgame_sessions(ctx)
     tt_clear_cycles(ctx, 2097152)
     roots = search_roots(ctx, 30 if ctx.quick else 400)
     # in-process: the same search from the same state twice; the model is a function of (position, history, table)
@@ -2478,6 +2509,12 @@ def session_script(ctx, rng, games):
     n = rng.choice([3, 6, 10, 16])
     use_bad = rng.random() < 0.25
     lines = [rng.choice(legal + (malformed if use_bad else []))() for _ in range(n)]
+    if rng.random() < 0.12:
+        # a search before any `position` command, then `ucinewgame` (or `cleartt`), then the same search again: the second
+        # one must print what a fresh process prints (the table is empty again although no game was ever set up)
+        d = rng.choice([3, 4, 5])
+        tb = [f'go depth {d}']
+        return [f'go depth {rng.choice([3, 4, 5])}', rng.choice(['ucinewgame', 'cleartt', 'UciNewGame']), tb[0], 'quit'], (True, tb)
     if rng.random() < 0.4:
         # a take-back: the same game given again two plies shorter - the positions of the longer game are no longer part
         # of the history, and a search from the shorter one walks straight into them. No search before it (cold table),
